@@ -166,8 +166,12 @@ fn check(c: &Case, ctx: &Ctx) -> Outcome {
         let mut interesting = false;
         let mut n_ops = 0;
         for (oi, op) in c.ops.iter().enumerate() {
+            // an emptied table still carries its samples: only merges continue from it
+            if t.rows.is_empty() && !matches!(op, Op::Merge { .. }) {
+                continue;
+            }
             if t.rows.is_empty() {
-                break;
+                kinds.push("merge_into_empty_table");
             }
             let n = t.nsamples();
             match op {
